@@ -22,6 +22,13 @@ theorem slice_slice (buf : Bytes) {ls le a b : Nat} (h1 : ls ≤ a) (h3 : b ≤ 
 def CtxLook (lk : LookFn) (buf : Bytes) (ls le : Nat) (k : Look) : Prop :=
   ∀ p, ls ≤ p → p ≤ le → lk k buf p = lk k (slice buf ls le) (p - ls)
 
+/-- one direction only: a look that holds on the window taken alone holds in the buffer -/
+def LiftLook (lk : LookFn) (buf : Bytes) (ls le : Nat) (k : Look) : Prop :=
+  ∀ p, ls ≤ p → p ≤ le → lk k (slice buf ls le) (p - ls) = true → lk k buf p = true
+
+theorem CtxLook.lift {lk : LookFn} {buf : Bytes} {ls le : Nat} {k : Look} (h : CtxLook lk buf ls le k) :
+    LiftLook lk buf ls le k := fun p h1 h2 hk => by rw [h p h1 h2]; exact hk
+
 mutual
 /-- every look of the tree satisfies `p` -/
 def allLooks (p : Look → Bool) : Hir → Bool
@@ -106,7 +113,7 @@ theorem ctx_fwd_rep (hle : le ≤ buf.length) (hok : ∀ k, ok k = true → CtxL
 end
 
 mutual
-theorem ctx_bwd (hll : ls ≤ le) (hle : le ≤ buf.length) (hok : ∀ k, ok k = true → CtxLook lk buf ls le k) :
+theorem ctx_bwd (hll : ls ≤ le) (hle : le ≤ buf.length) (hok : ∀ k, ok k = true → LiftLook lk buf ls le k) :
     ∀ (h : Hir) {a b : Nat}, allLooks ok h = true → Matches lk h (slice buf ls le) a b →
       Matches lk h buf (ls + a) (ls + b)
   | .empty, a, _, _, .empty ha => .empty (by rw [slice_length buf ls le hle] at ha; omega)
@@ -138,7 +145,8 @@ theorem ctx_bwd (hll : ls ≤ le) (hle : le ≤ buf.length) (hok : ∀ k, ok k =
       simp only [allLooks] at hal
       rw [slice_length buf ls le hle] at ha
       refine .look (by omega) ?_
-      rw [hok k hal (ls + a) (by omega) (by omega), show ls + a - ls = a by omega]
+      apply hok k hal (ls + a) (by omega) (by omega)
+      rw [show ls + a - ls = a by omega]
       exact hk
   | .rep _ _ _ sub, a, b, hal, .rep n hmin hmax hr => by
       simp only [allLooks] at hal
@@ -152,14 +160,14 @@ theorem ctx_bwd (hll : ls ≤ le) (hle : le ≤ buf.length) (hok : ∀ k, ok k =
   | .alt xs, a, b, hal, .alt hm => by
       simp only [allLooks] at hal
       exact .alt (ctx_bwd_any hll hle hok xs hal hm)
-theorem ctx_bwd_seq (hll : ls ≤ le) (hle : le ≤ buf.length) (hok : ∀ k, ok k = true → CtxLook lk buf ls le k) :
+theorem ctx_bwd_seq (hll : ls ≤ le) (hle : le ≤ buf.length) (hok : ∀ k, ok k = true → LiftLook lk buf ls le k) :
     ∀ (xs : HirList) {a b : Nat}, allLooksL ok xs = true → MatchesSeq lk xs (slice buf ls le) a b →
       MatchesSeq lk xs buf (ls + a) (ls + b)
   | .nil, a, _, _, .nil ha => .nil (by rw [slice_length buf ls le hle] at ha; omega)
   | .cons h t, a, b, hal, .cons hm1 hm2 => by
       simp only [allLooksL, Bool.and_eq_true] at hal
       exact .cons (ctx_bwd hll hle hok h hal.1 hm1) (ctx_bwd_seq hll hle hok t hal.2 hm2)
-theorem ctx_bwd_any (hll : ls ≤ le) (hle : le ≤ buf.length) (hok : ∀ k, ok k = true → CtxLook lk buf ls le k) :
+theorem ctx_bwd_any (hll : ls ≤ le) (hle : le ≤ buf.length) (hok : ∀ k, ok k = true → LiftLook lk buf ls le k) :
     ∀ (xs : HirList) {a b : Nat}, allLooksL ok xs = true → MatchesAny lk xs (slice buf ls le) a b →
       MatchesAny lk xs buf (ls + a) (ls + b)
   | .cons h t, a, b, hal, .head hm => by
@@ -168,7 +176,7 @@ theorem ctx_bwd_any (hll : ls ≤ le) (hle : le ≤ buf.length) (hok : ∀ k, ok
   | .cons h t, a, b, hal, .tail hm => by
       simp only [allLooksL, Bool.and_eq_true] at hal
       exact .tail (ctx_bwd_any hll hle hok t hal.2 hm)
-theorem ctx_bwd_rep (hll : ls ≤ le) (hle : le ≤ buf.length) (hok : ∀ k, ok k = true → CtxLook lk buf ls le k) :
+theorem ctx_bwd_rep (hll : ls ≤ le) (hle : le ≤ buf.length) (hok : ∀ k, ok k = true → LiftLook lk buf ls le k) :
     ∀ (sub : Hir) {n a b : Nat}, allLooks ok sub = true → MatchesRep lk sub (slice buf ls le) n a b →
       MatchesRep lk sub buf n (ls + a) (ls + b)
   | _, _, a, _, _, .zero ha => .zero (by rw [slice_length buf ls le hle] at ha; omega)
@@ -186,10 +194,19 @@ theorem matches_ctx_iff (hll : ls ≤ le) (hle : le ≤ buf.length)
   · exact ctx_fwd hle hok h hal h1 h2
   · intro hm
     have hsp := Matches.span hm
-    have := ctx_bwd hll hle hok h hal hm
+    have := ctx_bwd hll hle (fun k hk => (hok k hk).lift) h hal hm
     rwa [show ls + (s - ls) = s by omega, show ls + (e - ls) = e by omega] at this
 
 end
+/-- **Lifting**: if every look of `h` that holds on the window alone also holds in the buffer, a match of the
+window taken alone is a match of the buffer. -/
+theorem matches_lift {lk : LookFn} {buf : Bytes} {ls le : Nat} {ok : Look → Bool} (hll : ls ≤ le) (hle : le ≤ buf.length)
+    (hok : ∀ k, ok k = true → LiftLook lk buf ls le k) (h : Hir) (hal : allLooks ok h = true)
+    {s e : Nat} (h1 : ls ≤ s) (hse : s ≤ e)
+    (hm : Matches lk h (slice buf ls le) (s - ls) (e - ls)) : Matches lk h buf s e := by
+  have := ctx_bwd hll hle hok h hal hm
+  rwa [show ls + (s - ls) = s by omega, show ls + (e - ls) = e by omega] at this
+
 /-- the window `[ls, le)` is one line's content in the buffer: bounded on both sides by the
 terminator `t` or by the ends of the buffer -/
 structure IsLine (t : Nat) (buf : Bytes) (ls le : Nat) : Prop where
